@@ -211,8 +211,14 @@ impl NoNodeGlobalsHandler {
     ctx: &mut Context,
     range: SourceRange,
     fix_kind: FixKind,
+    other_tag: Option<SourceRange>,
   ) {
     let change = self.fix_change(ctx, range, fix_kind);
+    let mut changes = vec![change];
+    if let (FixKind::Replace(_), Some(other_tag)) = (fix_kind, other_tag) {
+      changes.push(self.fix_change(ctx, other_tag, fix_kind));
+      changes.sort_by_key(|change| change.range.start);
+    }
 
     ctx.add_diagnostic_with_fixes(
       range,
@@ -221,9 +227,48 @@ impl NoNodeGlobalsHandler {
       Some(fix_kind.hint(is_common_js(ctx))),
       vec![LintFix {
         description: fix_kind.description().into(),
-        changes: vec![change],
+        changes,
       }],
     );
+  }
+}
+
+/// The object a JSX tag name such as `a.b.C` starts with.
+fn jsx_name_root<'a>(
+  name: &ast_view::JSXElementName<'a>,
+) -> Option<&'a ast_view::Ident<'a>> {
+  let ast_view::JSXElementName::JSXMemberExpr(mut member) = *name else {
+    return None;
+  };
+  loop {
+    match member.obj {
+      ast_view::JSXObject::JSXMemberExpr(inner) => member = inner,
+      ast_view::JSXObject::Ident(ident) => return Some(ident),
+    }
+  }
+}
+
+/// `<global.Foo>` and `</global.Foo>` name the same object and have to be
+/// renamed together: the range of the identifier in the other tag, when `id`
+/// is the object of the tag name of an element that has two tags.
+fn other_tag_range(id: &ast_view::Ident) -> Option<SourceRange> {
+  let mut node = id.parent();
+  while let ast_view::Node::JSXMemberExpr(member) = node {
+    node = member.parent();
+  }
+  let element = match node {
+    ast_view::Node::JSXOpeningElement(opening) => opening.parent(),
+    ast_view::Node::JSXClosingElement(closing) => closing.parent(),
+    _ => return None,
+  };
+  let opening = jsx_name_root(&element.opening.name)?;
+  let closing = jsx_name_root(&element.closing?.name)?;
+  if opening.range() == id.range() {
+    Some(closing.range())
+  } else if closing.range() == id.range() {
+    Some(opening.range())
+  } else {
+    None
   }
 }
 
@@ -233,7 +278,12 @@ impl Handler for NoNodeGlobalsHandler {
       return;
     }
     if id.ctxt() == ctx.unresolved_ctxt() {
-      self.add_diagnostic(ctx, id.range(), NODE_GLOBALS[id.sym()]);
+      self.add_diagnostic(
+        ctx,
+        id.range(),
+        NODE_GLOBALS[id.sym()],
+        other_tag_range(id),
+      );
     }
   }
 
